@@ -90,6 +90,10 @@ func (w *featWalk) next() feat {
 	return f
 }
 
+// readDeadline bounds every wait for a frame.  Deliveries take milliseconds; the bound only
+// matters when the daemon under test has stopped talking.
+const readDeadline = 30 * time.Second
+
 type flusher interface{ Flush() error }
 
 type client struct {
@@ -151,7 +155,7 @@ func (c *client) readFrame(deadline time.Duration) (int32, []byte, error) {
 // expectResponse reads frames until a response/error frame that is not a heartbeat.
 func (c *client) expectResponse(want string) error {
 	for {
-		ft, data, err := c.readFrame(60 * time.Second)
+		ft, data, err := c.readFrame(readDeadline)
 		if err != nil {
 			return err
 		}
